@@ -28,9 +28,7 @@
 #include "http.c"
 #include "http_ref.h"
 
-#ifndef VP_NF
-#define VP_NF 2
-#endif
+#define VP_NF 3
 #ifndef VP_V
 #define VP_V 8
 #endif
@@ -51,15 +49,27 @@ static struct bufferevent vp_bev;
 struct evbuffer *bufferevent_get_input(struct bufferevent *b) { (void)b; return (struct evbuffer *)&vp_bev; }
 size_t evbuffer_get_length(const struct evbuffer *b) { (void)b; return 0; }
 
-static const char *const vp_names[] = { "Content-Length", "Transfer-Encoding", "content-length", "TRANSFER-ENCODING", "Connection", "X" };
-#define VP_NNAMES 6
+/* field names are fixed per obligation (shape enumeration by the driver: -DVP_K0=.. -DVP_K1=.. -DVP_K2=..),
+ * values are symbolic.  kinds: 1 Content-Length 2 Transfer-Encoding 3 content-length 4 TRANSFER-ENCODING 5 Connection 6 X-Y */
+static const char *const vp_names[] = { "", "Content-Length", "Transfer-Encoding", "content-length", "TRANSFER-ENCODING", "Connection", "X-Y" };
+#ifndef VP_K0
+#define VP_K0 1
+#endif
+#ifndef VP_K1
+#define VP_K1 0
+#endif
+#ifndef VP_K2
+#define VP_K2 0
+#endif
+static const unsigned vp_kinds[3] = { VP_K0, VP_K1, VP_K2 };
+#define VP_NFIELDS ((VP_K0 != 0) + (VP_K1 != 0) + (VP_K2 != 0))
 
 static char vp_val[VP_NF][VP_V + 1];
 static size_t vp_vlen[VP_NF];
 static unsigned vp_nameidx[VP_NF];
 
-static int is_te(unsigned i) { return i == 1 || i == 3; }
-static int is_cl(unsigned i) { return i == 0 || i == 2; }
+static int is_te(unsigned i) { return i == 2 || i == 4; }
+static int is_cl(unsigned i) { return i == 1 || i == 3; }
 
 void harness_framing(void)
 {
@@ -86,10 +96,10 @@ void harness_framing(void)
 	evcon.max_headers_size = EV_SIZE_MAX;
 	evcon.state = EVCON_READING_HEADERS;
 
-	nf = (unsigned)vp_range(0, VP_NF);
+	nf = VP_NFIELDS;
 	for (i = 0; i < VP_NF; i++) {
 		if (i >= nf) break;
-		vp_nameidx[i] = (unsigned)vp_range(0, VP_NNAMES - 1);
+		vp_nameidx[i] = vp_kinds[i];
 		vp_bytes(vp_val[i], VP_V);
 		vp_vlen[i] = (size_t)vp_range(0, VP_V);
 		vp_val[i][vp_vlen[i]] = '\0';
